@@ -12,7 +12,7 @@ def declare(S: Spec):
     S.measure("cpuC", "Container", "c", "c.assignment.cpu")
     S.measure("ramC", "Container", "c", "c.assignment.ram")
 
-    S.fn(f"{MR}:ResourcePool.verify_valid_assignment", owners=["C03"],
+    S.fn(f"{MR}:ResourcePool.verify_valid_assignment", owners=["C03", "C08"],
          params={"assignments": List(Ref("Assignment"))},
          requires=["assignments is not None"],
          ensures=[("cpu-fits", "Sum(assignments, 'cpuA') <= self.avail_cpu_pool"),
@@ -34,7 +34,7 @@ def declare(S: Spec):
          loops={0: dict(idx="k", header="for container in self.active_containers",
                         inv=["all(self.active_containers[j].container_id != container_id for j in range(0, k))"])})
 
-    S.fn(f"{MR}:ResourcePool.verify_valid_suspend", owners=["C10"],
+    S.fn(f"{MR}:ResourcePool.verify_valid_suspend", owners=["C10", "C08"],
          params={"suspensions": List(Ref("Suspend"))},
          requires=["suspensions is not None"],
          ensures=[("all-suspendable", "all(any(c.container_id == s.container_id and c._can_suspend for c in self.active_containers)"
@@ -335,7 +335,7 @@ def declare4(S: Spec):
 
     # the executor only routes: its clauses are about which pool a command reaches; what a pool does with its
     # commands is ResourcePool.run_one_tick's contract (treated as 'may do anything' in this proof)
-    S.fn(f"{ME}:Executor.run_one_tick", owners=["C09"],
+    S.fn(f"{ME}:Executor.run_one_tick", owners=["C09", "C08"],
          params={"suspensions": List(Ref("Suspend")), "assignments": List(Ref("Assignment"))},
          returns=List(Ref("ExecutionResult")),
          requires=["suspensions is not None and assignments is not None", "self.pools is not None and self.num_pools == len(self.pools)"],
